@@ -586,8 +586,14 @@ func (c *Ctx) c08Lookups() {
 			if e.Cond == nil {
 				continue
 			}
-			id, ok := ast.Unparen(e.Cond).(*ast.Ident)
-			if !ok || e.Val {
+			// a fact "<flag> is false" on this edge (`if okNext {` false edge, `if !ok {` true edge)
+			var id *ast.Ident
+			for _, f := range cfgx.ExpandCond(e.Cond, e.Val) {
+				if fid, ok := ast.Unparen(f.Expr).(*ast.Ident); ok && f.Tag == nil && !f.Val {
+					id = fid
+				}
+			}
+			if id == nil {
 				continue
 			}
 			// the ok of a look-up by NextID
@@ -609,34 +615,62 @@ func (c *Ctx) c08Lookups() {
 			nFail++
 			// edges that assert a flag to be true although every path from here to the test has just set it to false are not
 			// feasible (`ok = false` … `if !ok {`)
-			setsFalse := func(x int, obj types.Object) bool {
+			// edges that contradict the constant every path from here to the test has just stored are not feasible:
+			// `ok = false` … `if ok {`, `current = nil` … `if current != nil {` (also as one position of a tuple assignment)
+			setsConst := func(x int, obj types.Object) string {
 				as, ok := g.V[x].Node.(*ast.AssignStmt)
-				if !ok || len(as.Lhs) != 1 || len(as.Rhs) != 1 {
-					return false
+				if !ok || len(as.Lhs) != len(as.Rhs) {
+					return ""
 				}
-				lid, ok := as.Lhs[0].(*ast.Ident)
-				if !ok || astx.Obj(info, lid) != obj {
-					return false
+				for i, l := range as.Lhs {
+					lid, ok := l.(*ast.Ident)
+					if !ok || astx.Obj(info, lid) != obj {
+						continue
+					}
+					if rid, ok := ast.Unparen(as.Rhs[i]).(*ast.Ident); ok && (rid.Name == "false" || rid.Name == "nil") && info.Uses[rid] != nil && info.Uses[rid].Parent() == types.Universe {
+						return rid.Name
+					}
+					return "other"
 				}
-				rid, ok := ast.Unparen(as.Rhs[0]).(*ast.Ident)
-				return ok && rid.Name == "false"
+				return ""
 			}
+			assigns := func(x int, obj types.Object) bool { return setsConst(x, obj) != "" }
 			from := e.To
+			// holds(obj, k): on every path from `from` to x the last assignment to obj stored the constant k
+			holds := func(obj types.Object, k string, x int) bool {
+				// some assignment of k must be passed, and no path from an assignment of something else (or from `from` without any
+				// assignment) reaches x without passing an assignment of k
+				isK := func(y int) bool { return setsConst(y, obj) == k }
+				if !isK(from) && g.Reach(from, isK, nil)[x] {
+					return false
+				}
+				for y := range g.V {
+					if c := setsConst(y, obj); c != "" && c != k && g.Reach(from, nil, nil)[y] && g.Reach(y, isK, nil)[x] && y != x {
+						return false
+					}
+				}
+				_ = assigns
+				return true
+			}
 			infeasible := func(e2 *cfgx.Edge) bool {
 				if e2.Cond == nil {
 					return false
 				}
 				for _, f := range cfgx.ExpandCond(e2.Cond, e2.Val) {
-					fid, ok := ast.Unparen(f.Expr).(*ast.Ident)
-					if !ok || f.Tag != nil || !f.Val {
+					if f.Tag != nil {
 						continue
 					}
-					obj := astx.Obj(info, fid)
-					if obj == nil {
-						continue
+					if fid, ok := ast.Unparen(f.Expr).(*ast.Ident); ok && f.Val {
+						if obj := astx.Obj(info, fid); obj != nil && holds(obj, "false", e2.From) {
+							return true
+						}
 					}
-					if setsFalse(from, obj) || !g.Reach(from, func(x int) bool { return setsFalse(x, obj) }, nil)[e2.From] {
-						return true
+					if x, isNil, ok := nilCompare(info, f); ok && !isNil {
+						if xid, ok := ast.Unparen(x).(*ast.Ident); ok {
+							if obj := astx.Obj(info, xid); obj != nil && holds(obj, "nil", e2.From) {
+								return true
+							}
+						}
 					}
 				}
 				return false
